@@ -149,9 +149,34 @@ class Oracle(object):
             self._sg = shapely.geometry
             self.geom = wd.cov_geom
 
-    # positive-area overlap of the rectangle inset by d with the coverage
-    def overlaps(self, rect, d):
+    def matrix_extent(self, z):
+        """the area covered by the existing (meta) tiles of level z: _calc_grids drops a partial pixel row/column, so
+        a level's tile matrix can end before the grid bbox does"""
+        wd = self.wd
+        g = wd.grid
+        gs = g.grid_sizes[z]
+        mx, my = level_meta_size(wd, z)
+        nmx = (gs[0] + mx - 1) // mx
+        nmy = (gs[1] + my - 1) // my
+        w = nmx * mx * g.resolutions[z] * g.tile_size[0]
+        h = nmy * my * g.resolutions[z] * g.tile_size[1]
+        if g.origin == 'ul':
+            return (g.bbox[0], g.bbox[3] - h, g.bbox[0] + w, g.bbox[3])
+        return (g.bbox[0], g.bbox[1], g.bbox[0] + w, g.bbox[1] + h)
+
+    def coarser_cover(self, z, d):
+        """intersection of the tile matrices of the levels above z, shrunk by d (None: no restriction)"""
+        m = None
+        for k in range(0, z):
+            e = _inset(self.matrix_extent(k), d)
+            m = e if m is None else limit(m, e)
+        return m
+
+    # positive-area overlap of the rectangle inset by d (and clipped) with the coverage
+    def overlaps(self, rect, d, clip=None):
         r = _inset(rect, d)
+        if clip is not None:
+            r = limit(r, clip)
         if r[0] >= r[2] or r[1] >= r[3]:
             return False
         if self.wd.lattice:
@@ -189,7 +214,11 @@ class Oracle(object):
                 for i in range(max(i0, 0), min(i1, nmx - 1) + 1)]
 
     def sets(self):
-        """-> must, mustcoarse, allowed (lists of main tiles).  A tile that is not `allowed` must not be requested:
+        """-> must, mustcoarse, allowed (lists of main tiles).
+        must:       the meta tile inset by 1/10 pixel of its level overlaps the coverage (positive area)
+        mustcoarse: ... inset by 1/10 pixel of level 0, and that overlap lies inside the tile matrix of every level
+                    above it (the part of `must` that neither of the two known defects of the descent touches)
+        A tile that is not `allowed` must not be requested:
         its meta tile does not even touch the coverage (with skip_geoms_for_last_levels: no meta tile of the deepest
         geometry-tested level that overlaps it touches the coverage)."""
         wd = self.wd
@@ -209,6 +238,7 @@ class Oracle(object):
         must, coarse, allowed = [], [], []
         for z in levels:
             d = g.resolutions[z] / 10.0
+            cover = self.coarser_cover(z, f * d0)
             if deepest is not None and z > deepest:
                 if not anc:
                     continue
@@ -220,7 +250,7 @@ class Oracle(object):
                 if self.overlaps(r, f * d):
                     must.append(t)
                     allowed.append(t)
-                    if self.overlaps(r, f * d0):
+                    if self.overlaps(r, f * d0, cover):
                         coarse.append(t)
                     continue
                 if deepest is None:
@@ -664,6 +694,8 @@ def catalogue(tier):
         # coverage edge closer than 1/10 pixel of a coarse level to a tile border of that level
         ('g2-thin',      'G2',    ('bbox', [(314, 10, 630, 310)]), [0, 1, 2], (1, 1), 0, 'EPSG:3857'),
         ('g15-thin',     'G15',   ('bbox', [(475, 100, 700, 300)]), [1, 2], (1, 1), 0, 'EPSG:3857'),
+        # the single tile row of level 0 (600 // 140 = 4 pixels) ends at y = 560: rows of level 3 above it have no ancestor
+        ('gcust-top',    'Gcust', ('bbox', [(100, 450, 400, 595)]), [0, 3], (1, 1), 0, 'EPSG:3857'),
     ]
     if tier == 'thorough':
         c += [
@@ -1027,6 +1059,12 @@ _REACH = {}
 
 def classify_miss(wd, t):
     """a must-tile that was not requested: lost to the 1/10 pixel inset of a coarser level, or something else"""
+    orc = Oracle(wd)
+    f = 1.0 if wd.lattice else 2.0
+    g = wd.grid
+    cover = orc.coarser_cover(t[2], f * g.resolutions[0] / 10.0)
+    if cover is not None and not orc.overlaps(meta_rect(wd, t), f * g.resolutions[t[2]] / 10.0, cover):
+        return 'coarser-level-matrix-does-not-cover'
     if POLICY['value'] != 'level':
         return 'other'
     if wd.name not in _REACH:
@@ -1323,8 +1361,9 @@ def model_checking(ctx, items, thorough):
     # pass 2: every interruption point x every throttle decision x continued runs
     runs = [('interrupt1', list(range(len(items))), 1)]
     if thorough:
-        small = sorted(range(len(items)), key=lambda k: items[k].nev)[:max(6, len(items) // 2)]
-        runs.append(('interrupt2', small, 2))
+        order = sorted(range(len(items)), key=lambda k: items[k].nev)
+        runs.append(('interrupt2', order[:max(6, 2 * len(items) // 3)], 2))
+        runs.append(('interrupt3', order[:8], 3))
     for name, idxs, mi in runs:
         sub = [items[k].w for k in idxs]
         exc = [j + 1 for j, k in enumerate(idxs) if items[k].excused]
@@ -1334,7 +1373,8 @@ def model_checking(ctx, items, thorough):
             confirm_counterexample(ctx, [items[k] for k in idxs], r, name)
             continue
         cov = action_coverage(r)
-        for a in ACTIONS:
+        for a in (ACTIONS if name == 'interrupt1' else ['Enter', 'Report', 'StepDown', 'SkipProcessed', 'StepUp', 'Process',
+                                                        'FinalReport', 'Interrupt', 'Continue']):
             if cov.get(a, (0, 0))[0] == 0:
                 raise tlc.MachineryError('Seeder.tla (%s): action %s was never taken (vacuous run)' % (name, a))
         r.coverage = cov
@@ -1525,7 +1565,7 @@ def run(ctx):
     spec_to_code(ctx, items, thorough)
     # (T) lattice worlds and random real grids
     code_to_spec(ctx, items, 'lattice', 4 if thorough else 2)
-    ritems = random_items(ctx, 150 if thorough else 40, 2500 if thorough else 1200)
+    ritems = random_items(ctx, 300 if thorough else 40, 2500 if thorough else 1200)
     code_to_spec(ctx, ritems, 'random', 4 if thorough else 2)
 
     ctx.assumptions += [
